@@ -52,7 +52,7 @@ var urlTable = []string{
 	"http://b:8080/y",      // 7  key 4
 	"http://c",             // 8  key 5
 	"http://d/p?x=1&y=2",   // 9  key 6
-	"http://e/p",           // 10 key 7
+	"http://sa",            // 10 key 7 ("http"+"sa" reads like "https"+"a": a different scheme AND host than id 4)
 	"http://evil/x",        // 11 key 8  (only written by scribblers / unknown removes)
 	"ftp://evil2:21/",      // 12 key 9
 }
@@ -170,15 +170,22 @@ func gcd64(a, b int64) int64 {
 
 // rotation returns (g, W) = gcd of the weights and sum/g; (0, 0) for an empty or all-zero pool.
 func (p *refPool) rotation() (int64, int64) {
-	var g, sum int64
+	var g int64
 	for _, k := range p.keys {
 		g = gcd64(g, p.w[k])
-		sum += p.w[k]
 	}
 	if g == 0 {
 		return 0, 0
 	}
-	return g, sum / g
+	var W int64 // sum/g, computed without forming the sum (weights may be as large as the largest integer)
+	for _, k := range p.keys {
+		if q := p.w[k] / g; q > 1<<40-W {
+			W = 1 << 40 // "very long": nobody walks such a rotation to its end
+		} else {
+			W += q
+		}
+	}
+	return g, W
 }
 
 // ---- generator ----
@@ -196,6 +203,8 @@ func (c *rrComp) Gen(rng *rand.Rand, idx int, tier string, targeted bool) hlib.H
 	palettes := [][]int64{
 		{1}, {1, 1, 2}, {0, 1, 2, 3}, {3, 2, 0}, {4, 6, 10}, {2, 4, 8}, {6, 9, 15, 0}, {1, 2, 3, 4, 5}, {5, 5, 5}, {0}, {0, 0, 7}, {12, 18}, {1, 4096}, {7, 1},
 		{8192, 4096, 0}, {2500, 5000, 2500}, {10000, 5000}, {4097, 8194}, // heavier than the rebalancer's cap of 4096, short rotations
+		{9223372036854775807, 9223372036854775807}, {4611686018427387904, 4611686018427387904, 4611686018427387904, 4611686018427387904},
+		{6148914691236517204, 3074457345618258602, 3074457345618258602, 0}, // as large as an int gets: sums beyond 2^63, rotations of 2 and 4
 	}
 	pal := palettes[rng.Intn(len(palettes))]
 	if targeted && rng.Intn(3) == 0 {
@@ -830,8 +839,8 @@ func (c *rrComp) Run(h *hlib.History) ([]hlib.Mon, bool) {
 				obs = append(obs, got[r.in.key(u)])
 			}
 			for _, k := range ref.keys {
-				if got[k] != mult*ref.w[k]/g {
-					hit("C01", step, "concurrent-share", fmt.Sprintf("%d goroutines made %d selections in total: server key %d chosen %d times, want %d", G, total, k, got[k], mult*ref.w[k]/g))
+				if got[k] != mult*(ref.w[k]/g) {
+					hit("C01", step, "concurrent-share", fmt.Sprintf("%d goroutines made %d selections in total: server key %d chosen %d times, want %d", G, total, k, got[k], mult*(ref.w[k]/g)))
 				}
 				delete(got, k)
 			}
@@ -957,19 +966,21 @@ func (c *rrComp) Nontrivial(h *hlib.History) string {
 			}
 		}
 		// pool shape from the dump at the end of the observation
-		var g, sum int64
+		var g, sumOverG int64
 		d := dumpOf(op, o)
 		for j := 2; j < len(d); j += 3 {
 			g = gcd64(g, d[j])
-			sum += d[j]
 			if d[j] == 0 {
 				zeros = true
 			}
 		}
+		for j := 2; j < len(d) && g > 0; j += 3 {
+			sumOverG += d[j] / g
+		}
 		if g > 1 {
 			gcdGt1 = true
 		}
-		if g > 0 && run >= 2*sum/g {
+		if g > 0 && run >= 2*sumOverG {
 			fullWindows = true
 		}
 	}
